@@ -109,6 +109,63 @@ pub fn f2k(kinds: &'static [usize], label: &str) -> Family {
     }
 }
 
+/// F4B: two Gold pieces (kinds R C E) and two Silver pieces (kinds r c e) on any four of the 28 border squares, plus a
+/// silver rabbit parked on d5 (so that neither elimination nor goal decides when Gold has a rabbit): every way two pieces
+/// of one side can face each other across the whole board along an edge, with their freezers next to them.  Meant for
+/// the turn-start oracle at the root (C04): wrap-arounds between rank 1 and rank 8 or between the a- and the h-file
+/// change who is frozen, hence who is immobilised.
+pub fn f4border() -> Family {
+    let border: Vec<usize> = (0..64).filter(|i| i % 8 == 0 || i % 8 == 7 || i / 8 == 0 || i / 8 == 7).collect();
+    let mut quads: Vec<[usize; 4]> = Vec::new();
+    let nb = border.len();
+    for a in 0..nb {
+        for b in (a + 1)..nb {
+            for c in (b + 1)..nb {
+                for d in (c + 1)..nb {
+                    quads.push([border[a], border[b], border[c], border[d]]);
+                }
+            }
+        }
+    }
+    // which two of the four squares are Gold's
+    const SPLITS: [[usize; 2]; 6] = [[0, 1], [0, 2], [0, 3], [1, 2], [1, 3], [2, 3]];
+    const G: [usize; 3] = [0, 1, 5];
+    const S: [usize; 3] = [6, 7, 11];
+    let n = quads.len() as u64 * 6 * 81 * 2;
+    Family {
+        name: format!("F4B (2 Gold pieces of kinds RCE + 2 Silver pieces of kinds rce on any 4 of the 28 border squares, silver rabbit parked on d5; {} square sets x 6 colour splits x 81 kinds x 2 sides)", quads.len()),
+        n,
+        how: 0,
+        setups: None,
+        decode: Box::new(move |idx| {
+            let side = idx % 2 == 0;
+            let mut x = idx / 2;
+            let kinds = (x % 81) as usize;
+            x /= 81;
+            let split = SPLITS[(x % 6) as usize];
+            x /= 6;
+            let q = quads[x as usize];
+            let mut b = [rm::EMPTY; 64];
+            let (mut kg, mut ks) = (kinds % 9, kinds / 9);
+            for j in 0..4 {
+                if split.contains(&j) {
+                    b[q[j]] = kind_cell(G[kg % 3]);
+                    kg /= 3;
+                } else {
+                    b[q[j]] = kind_cell(S[ks % 3]);
+                    ks /= 3;
+                }
+            }
+            b[27] = kind_cell(6); // silver rabbit on d5
+            if legal(&b) && !rm::rabbit_on_goal(&b, true) && !rm::rabbit_on_goal(&b, false) {
+                Some((b, side))
+            } else {
+                None
+            }
+        }),
+    }
+}
+
 /// F3L: three pieces on one rank or one file (any three squares of the line: far apart as well as adjacent), kinds
 /// R E r e.  What a carry, borrow or rotate travelling along a rank / file (or across a rank boundary) would disturb.
 pub fn f3line() -> Family {
